@@ -48,8 +48,11 @@ class AuthRun:
         self.released.add(n)
         open(os.path.join(self.ctl, 'go-%d' % n), 'w').close()
 
-    async def scenario(self, hist, extra):
-        """hist: [["a", r, p] | ["h", rid, p]]; extra: list of (kind) garbled requests appended concurrently"""
+    async def scenario(self, hist, extra, spell=None):
+        """hist: [["a", r, p] | ["h", rid, p]]; extra: list of (kind) garbled requests appended concurrently;
+        spell: concrete spelling of the model's abstract passwords (the valid one is always "good")"""
+        spell = spell or {}
+        hist = [[s[0], s[1], spell.get(s[2], s[2])] for s in hist]
         self.nscen += 1
         user = 'u%dx%d' % (self.wid, self.nscen)
         ev = []
@@ -129,6 +132,9 @@ def run(ctx):
     n = len(hists) if ctx.thorough else 150
     hists = hists[:n]
     kinds = ['none', 'garbled', 'nocolon', 'emptypw', 'otheruser-bad', 'scheme']
+    # the model's invalid passwords are spelled relative to the valid one: unrelated, proper prefixes, extensions, case and
+    # last-byte variants, embedded colon / blank (the code compares and caches C strings)
+    family = ['bad', 'worse', 'goo', 'g', 'goodX', 'good good', 'Good', 'GOOD', 'gooe', 'good:', ':good', 'good ', ' good', 'ood']
     out = []
 
     async def worker(wid, part):
@@ -136,8 +142,10 @@ def run(ctx):
         try:
             for h in part:
                 extra = [rnd.choice(kinds) for _ in range(2)]
-                ev = await ar.scenario(h, extra)
-                out.append({'hist': h, 'extra': extra, 'ev': ev})
+                two = rnd.sample(family, 2)
+                spell = {'good': 'good', 'bad': two[0], 'worse': two[1]}
+                ev = await ar.scenario(h, extra, spell)
+                out.append({'hist': h, 'spell': spell, 'extra': extra, 'ev': ev})
             if not ar.sq.alive():
                 ctx.violation('squid exited during the run', {'kind': 'exit', 'log': ar.sq.tail_log()})
         finally:
@@ -161,6 +169,6 @@ def run(ctx):
         ctx.sample(o)
     ctx.cov['rule'] = ('AuthImpl.tla (shared user record, password update, Pending queue, helper replies in any order; 4 requests x 3 passwords) is explored by TLC; '
                        'every terminal path (arrival / helper-reply order) is a scenario realised with a scripted Basic helper that holds each lookup until the '
-                       'driver releases it, plus two requests with absent/garbled/colon-less/empty-password/other-user credentials; histories validated by TLC '
+                       'driver releases it, the two invalid passwords of a path are spelled as a seeded pair out of 14 variants of the valid one (prefixes, extensions, case, blanks, colon), plus two requests with absent/garbled/colon-less/empty-password/other-user credentials; histories validated by TLC '
                        'against Auth.tla. Non-trivial = distinct path.')
     ctx.assumptions += ['helper verdict function: password "good" is valid for every user', 'one user name per scenario (the user cache is keyed by user name)']
